@@ -31,6 +31,12 @@ const innocuous = "zGoSafezInvalidPropertyValue"
 
 func props(c Case) safehtml.StyleProperties {
 	var p safehtml.StyleProperties
+	if c.BG != nil {
+		p.BackgroundImageURLs = []string{} // empty but not nil: still "no value"
+	}
+	if c.FF != nil {
+		p.FontFamily = []string{}
+	}
 	for _, u := range c.BG {
 		p.BackgroundImageURLs = append(p.BackgroundImageURLs, string(u))
 	}
